@@ -45,6 +45,8 @@ enum Op {
     /// prefill, remaining capacity, and how many of the unfilled bytes are initialised beforehand (None = all: ReadBuf::new)
     PollRead(usize, usize, Option<usize>),
     PollWrite(Vec<u8>),
+    /// `poll_write_vectored`; reported as the `poll_write` of the first non-empty slice that the trait's default performs
+    PollWriteV(Vec<Vec<u8>>),
     PollFlush,
     PollShutdown,
     WriteBytes(Vec<u8>),
@@ -94,6 +96,22 @@ fn apply<const N: usize>(b: &mut AsyncFixedBuf<N>, s: &St, op: &Op, w: &mut impl
             };
             let s2 = observe(b);
             writeln!(w, "AP {} | pw {} | {} | {}", pre, hex(d), res, full(&s2)).unwrap();
+            s2
+        }
+        Op::PollWriteV(l) => {
+            let first: Vec<u8> = l.iter().find(|d| !d.is_empty()).cloned().unwrap_or_default();
+            let r = std::panic::catch_unwind(std::panic::AssertUnwindSafe(|| {
+                let ios: Vec<std::io::IoSlice> = l.iter().map(|d| std::io::IoSlice::new(d)).collect();
+                Pin::new(&mut *b).poll_write_vectored(&mut cx, &ios)
+            }));
+            let res = match r {
+                Ok(Poll::Ready(Ok(n))) => format!("ok {}", n),
+                Ok(Poll::Ready(Err(e))) => format!("err{}", crate::asrw::kind_num(e.kind())),
+                Ok(Poll::Pending) => "pending".into(),
+                Err(_) => "panic".into(),
+            };
+            let s2 = observe(b);
+            writeln!(w, "AP {} | pw {} | {} | {}", pre, hex(&first), res, full(&s2)).unwrap();
             s2
         }
         Op::PollFlush | Op::PollShutdown => {
@@ -170,6 +188,15 @@ fn explore<const N: usize>(w: &mut impl std::io::Write) -> (usize, usize) {
             ops.push(Op::WriteBytes(d));
         }
         ops.push(Op::PollWrite((0..N + 1).map(|i| alpha[i % 2]).collect()));
+        {
+            let free = N.saturating_sub(s.wi);
+            let mk = |k: usize| -> Vec<u8> { (0..k).map(|i| alpha[i % 2]).collect() };
+            ops.push(Op::PollWriteV(vec![]));
+            ops.push(Op::PollWriteV(vec![vec![], mk(1)]));
+            ops.push(Op::PollWriteV(vec![mk(free), mk(1)]));
+            ops.push(Op::PollWriteV(vec![mk(free + 1), mk(1)]));
+            ops.push(Op::PollWriteV(vec![mk(1), mk(free)]));
+        }
         for n in 0..=len {
             ops.push(Op::ReadBytes(n));
         }
